@@ -47,6 +47,8 @@ def plan(tier, seed):
         specs.append({"kind": "chains", "n": 1500 if tier == "quick" else 20000})
     for i in range(2 if tier == "quick" else 6):
         specs.append({"kind": "regex_reports", "n": 500 if tier == "quick" else 8000})
+    for i in range(2 if tier == "quick" else 6):
+        specs.append({"kind": "layer_reports", "n": 1500 if tier == "quick" else 30000})  # C05's driver; C03's report judge
     return specs
 
 
@@ -67,6 +69,10 @@ def run_shard(spec, acc):
         c01.randomised(spec, acc)
     elif spec["kind"] == "regex_reports":
         regex_reports(spec, acc)
+    elif spec["kind"] == "layer_reports":
+        from . import c05
+
+        c05.run_shard(spec, acc)
     else:
         chains(spec, acc)
 
@@ -151,6 +157,10 @@ def regex_reports(spec, acc):
 
 
 def replay(case, acc):
+    if case.get("kind") == "layer":
+        from . import c05
+
+        return c05.replay(case, acc)
     if case.get("kind") == "regex_report":
         from ..refmodel import msgparse
 
@@ -173,6 +183,10 @@ def floors(acc, tier):
             why.append(f"violation bucket {b} never fired")
     if acc.counters["regex_reports_compared"] < 200:
         why.append(f"only {acc.counters['regex_reports_compared']} regex reports compared")
+    if acc.counters["c01_judged_nested_lists"] < 100:
+        why.append(f"only {acc.counters['c01_judged_nested_lists']} rules with nested module lists on one side judged")
+    if acc.counters["c03_layer_reports_judged"] < 300:
+        why.append(f"only {acc.counters['c03_layer_reports_judged']} reports of failing layer rules compared")
     if acc.counters["c03_judged"] < 5000:
         why.append(f"only {acc.counters['c03_judged']} reports compared")
     acc.flags["exhaustive"] = bool(acc.flags.get("exhaustive_T1"))
